@@ -6,6 +6,7 @@ import (
 	"fmt"
 	"path"
 	"sort"
+	"strconv"
 	"strings"
 	"sync"
 	"sync/atomic"
@@ -47,22 +48,22 @@ func (o c09Obs) same(p c09Obs) bool { return o.coq() == p.coq() }
 // c09World is one scenario: instance X with k databases, instance Y with some of them.
 type c09World struct {
 	sharedX *orbitdb.CreateDBOptions
-	r      *Run
-	s      *Scen
-	k      int
-	x, y   []iface.Store // y[j] == nil: Y has not opened database j
-	addrs  []string
-	types  []string
-	wmodes []string
+	r       *Run
+	s       *Scen
+	k       int
+	x, y    []iface.Store // y[j] == nil: Y has not opened database j
+	addrs   []string
+	types   []string
+	wmodes  []string
 	// every entry ever seen: hash -> database index / Lamport time
 	entDB   map[string]int
 	entTime map[string]int
 
-	mu     sync.Mutex
-	evs    []c09Ev
-	nEvs   int64
-	hooks  *int64
-	netPos int // network log already consumed
+	mu        sync.Mutex
+	evs       []c09Ev
+	nEvs      int64
+	hooks     *int64
+	netPos    int // network log already consumed
 	directPos int // ... by checkDirect
 }
 
@@ -710,6 +711,41 @@ func c09Scenario(r *Run, si int, hookCount *int64) error {
 	w.calm(20 * time.Second)
 	w.takeEvents()
 	w.publishedSince(true)
+	{
+		// the head exchanges X sent to Y while Y opened its databases, against the join model
+		var heads, joined, sent []string
+		for j := range w.x {
+			for _, h := range w.x[j].OpLog().Heads().Slice() {
+				heads = append(heads, fmt.Sprintf("(%s, %s)", sim.CoqNat(j), sim.CoqN(w.hnum(h.GetHash().String()))))
+			}
+		}
+		for j, sy := range w.y {
+			if sy != nil {
+				joined = append(joined, strconv.Itoa(j))
+			}
+		}
+		nmsg := 0
+		for _, m := range s.Env.Net.LogSnapshot()[w.directPos:] {
+			if m.Kind != "direct" || m.From != X.Idx || m.To != Y.Idx {
+				continue
+			}
+			var msg iface.MessageExchangeHeads
+			if err := json.Unmarshal(m.Payload, &msg); err != nil {
+				continue
+			}
+			var hs []string
+			for _, h := range msg.Heads {
+				if h != nil {
+					hs = append(hs, h.GetHash().String())
+				}
+			}
+			nmsg++
+			sent = append(sent, fmt.Sprintf("(%s, %s)", sim.CoqNat(w.dbOfAddr(msg.Address)), sim.CoqListN(w.nums(hs))))
+		}
+		r.AddCase(fmt.Sprintf("(CJoins %s %s ([%s])%%nat %s)", sim.CoqNat(k), sim.CoqList(heads), strings.Join(joined, "; "), sim.CoqList(sent)),
+			map[string]interface{}{"kind": "joins", "sig": "heads-sent-to-peer-without-the-database", "scen": si, "k": k, "joined": len(joined), "messages": nmsg, "databases_with_heads": len(heads), "memory": mem}, len(heads) > 0 && len(joined) > 0)
+		r.Count("joins-case")
+	}
 	w.checkDirect(Y.Idx, map[string]interface{}{"scen": si, "phase": "peer opens its databases", "k": k, "types": w.types, "memory": mem})
 
 	steps := 8 + r.Rng.Intn(5)
